@@ -202,24 +202,34 @@ func (in *objIndex) search(o Object, field string, operator string, value interf
 				fi = fi.Constrain(constrain)
 			}
 
+			var res []*indexedField
+
 			switch operator {
 			case "!=":
-				return fi.SearchNotEqual(iField), nil
+				res = fi.SearchNotEqual(iField)
 			case "=":
-				return fi.SearchEqual(iField), nil
+				res = fi.SearchEqual(iField)
 			case ">":
-				return fi.SearchGreater(iField), nil
+				res = fi.SearchGreater(iField)
 			case ">=":
-				return fi.SearchGreaterOrEqual(iField), nil
+				res = fi.SearchGreaterOrEqual(iField)
 			case "<":
-				return fi.SearchLess(iField), nil
+				res = fi.SearchLess(iField)
 			case "<=":
-				return fi.SearchLessOrEqual(iField), nil
+				res = fi.SearchLessOrEqual(iField)
 			case "~=":
-				return fi.SearchByRegex(iField)
+				if res, err = fi.SearchByRegex(iField); err != nil {
+					return nil, err
+				}
 			default:
 				return nil, fmt.Errorf("%w %s", ErrUnkownSearchOperator, operator)
 			}
+
+			// search functions may return a sub-slice of the index, we
+			// return a copy so that the result never aliases index memory
+			out := make([]*indexedField, len(res))
+			copy(out, res)
+			return out, nil
 		}
 		return nil, fmt.Errorf("%w %s", ErrFieldNotIndexed, field)
 	} else {
